@@ -324,9 +324,95 @@ func vC03MixCase(r *rand.Rand, s string) string {
 var vC03Types = []uint16{1, 2, 5, 6, 15, 16, 28, 43, 48, 255, 0, 65535, 256, 257}
 var vC03Classes = []uint16{1, 1, 1, 3, 4, 254, 255, 0, 256, 65535}
 
+// exhaustive small scope (thorough tier): every name of at most two labels, each of one or two octets over
+// {'a', 'A', '.'} (a case pair and an octet whose printed form is an escape holding the label separator), plus
+// the root, x two types x both CD bits x {no scope, 203.0.112.0/22, 203.0.112.0/24} (two lengths over the
+// same byte-rounded address): the preimage the production wire hasher is fed, the hash of the presentation
+// path on the printed name, and — Go-side — no two different questions with one preimage.
+func vC03InjectivityCase() map[string]any {
+	alphabet := []byte{'a', 'A', '.'}
+	var labels [][]byte
+	for _, x := range alphabet {
+		labels = append(labels, []byte{x})
+	}
+	for _, x := range alphabet {
+		for _, y := range alphabet {
+			labels = append(labels, []byte{x, y})
+		}
+	}
+	names := [][][]byte{{}}
+	for _, l := range labels {
+		names = append(names, [][]byte{l})
+	}
+	for _, l1 := range labels {
+		for _, l2 := range labels {
+			names = append(names, [][]byte{l1, l2})
+		}
+	}
+	scopes := []netip.Prefix{{}, netip.MustParsePrefix("203.0.112.0/22"), netip.MustParsePrefix("203.0.112.0/24")}
+	goFail := ""
+	fail := func(f string, a ...any) {
+		if goFail == "" {
+			goFail = fmt.Sprintf(f, a...)
+		}
+	}
+	byPre := map[string]string{}
+	byKey := map[uint64]string{}
+	byIdent := map[string]string{}
+	var items []string
+	for _, ls := range names {
+		w := vC03Wire(ls)
+		pres, _, err := dns.UnpackDomainName(w, 0)
+		if err != nil {
+			fail("UnpackDomainName(%v): %v", w, err)
+			continue
+		}
+		for _, qtype := range []uint16{1, 28} {
+			for _, cd := range []bool{false, true} {
+				for _, sc := range scopes {
+					hw, ok := KeyWireWithPrefix(w, qtype, 1, cd, sc)
+					identK := fmt.Sprintf("%s|%d|%v|%v", strings.ToLower(pres), qtype, cd, sc)
+					if other, dup := byKey[hw]; dup && other != identK {
+						fail("questions %s and %s share the production key %#x", other, identK, hw)
+					}
+					byKey[hw] = identK
+					obs, ok2, complete := vC03ObserveWire(w, qtype, 1, cd, sc)
+					if !ok || !ok2 || !complete || xxhash.Sum64(obs) != hw {
+						fail("KeyWireWithPrefix(%v, %d, cd=%v, %v): preimage not observable", w, qtype, cd, sc)
+						continue
+					}
+					if hp := KeyWithPrefix(dns.Question{Name: pres, Qtype: qtype, Qclass: 1}, cd, sc); hp != hw {
+						fail("presentation key of %q differs from the wire key of %v", pres, w)
+					}
+					ident := fmt.Sprintf("%s|%d|%v|%v", strings.ToLower(pres), qtype, cd, sc)
+					if other, dup := byPre[string(obs)]; dup && other != ident {
+						fail("questions %s and %s share the preimage %v", other, ident, obs)
+					}
+					byPre[string(obs)] = ident
+					if other, dup := byIdent[ident]; dup && other != string(obs) {
+						fail("question %s has two preimages", ident)
+					}
+					byIdent[ident] = string(obs)
+					items = append(items, fmt.Sprintf("(%s, %d%%N, 1%%N, %s, %s, %s)", vC03Bytes(w), qtype, vC03Bool(cd), vC03Scope(sc), vC03Bytes(obs)))
+				}
+			}
+		}
+	}
+	return map[string]any{
+		"k":          "inj-exhaustive",
+		"coq":        fmt.Sprintf("CaseInj [%s]", strings.Join(items, "; ")),
+		"go_fail":    goFail,
+		"nontrivial": len(items) > 1000,
+		"desc":       map[string]any{"questions": len(items), "distinct preimages": len(byPre), "distinct questions": len(byIdent)},
+	}
+}
+
 func TestVerifC03Keys(t *testing.T) {
 	tr := vC03Open(t)
 	defer tr.f.Close()
+	if os.Getenv("VERIF_TIER") == "thorough" {
+		tr.emit(vC03InjectivityCase())
+	}
 	seed := int64(vC03EnvInt("VERIF_SEED", 1))
 	n := vC03EnvInt("VERIF_N", 1200)
 	r := rand.New(rand.NewSource(seed))
